@@ -101,16 +101,37 @@ class CoqLock:
         fcntl.flock(self.f, fcntl.LOCK_UN); self.f.close()
 
 
+_DEPGRAPH = None
+
+
+def dep_graph():
+    """in-project dependency graph of every .v under coq/ (one coqdep call, cached per process)"""
+    global _DEPGRAPH
+    if _DEPGRAPH is not None:
+        return _DEPGRAPH
+    fs = coq_files()
+    g = {f: [] for f in fs}
+    rc, out, err = sh(["coqdep", "-Q", ".", "PGV"] + fs, cwd=COQ)
+    for line in out.split("\n"):
+        if ":" not in line:
+            continue
+        lhs, rhs = line.split(":", 1)
+        tg = [os.path.normpath(x[:-3] + ".v") for x in lhs.split() if x.endswith(".vo")]
+        if not tg:
+            continue
+        f = tg[0]
+        if f not in g:
+            continue
+        for m in re.finditer(r"(\S+)\.vo\b", rhs):
+            d = os.path.normpath(m.group(1) + ".v")
+            if d in g and d != f and d not in g[f]:
+                g[f].append(d)
+    _DEPGRAPH = g
+    return g
+
+
 def direct_deps(f):
-    rc, out, err = sh(["coqdep", "-Q", ".", "PGV", f], cwd=COQ)
-    deps = []
-    first = out.split("\n")[0] if out else ""
-    if ":" in first:
-        for m in re.finditer(r"(\S+)\.vo\b", first.split(":", 1)[1]):
-            g = os.path.normpath(m.group(1) + ".v")
-            if os.path.exists(os.path.join(COQ, g)) and g != f:
-                deps.append(g)
-    return sorted(set(deps))
+    return sorted(dep_graph().get(os.path.normpath(f), []))
 
 
 def coq_build_closure(vfile, timeout=3000):
@@ -147,19 +168,14 @@ def coq_build_closure(vfile, timeout=3000):
 
 
 def coq_deps_of(vfile):
-    """transitive .v dependencies (within the project) of a Properties file, via coqdep"""
-    seen, todo = set(), [vfile]
+    """transitive .v dependencies (within the project) of a file, itself included"""
+    seen, todo = set(), [os.path.normpath(vfile)]
     while todo:
         f = todo.pop()
         if f in seen:
             continue
         seen.add(f)
-        rc, out, err = sh(["coqdep", "-Q", ".", "PGV", f], cwd=COQ)
-        for m in re.finditer(r"(\S+)\.vo\b", out.split(":", 1)[1] if ":" in out else ""):
-            g = m.group(1) + ".v"
-            g = os.path.normpath(g)
-            if os.path.exists(os.path.join(COQ, g)) and g not in seen:
-                todo.append(g)
+        todo.extend(direct_deps(f))
     return sorted(seen)
 
 
@@ -216,8 +232,34 @@ def coq_eval(name, text, timeout=600):
     return rc, out, err
 
 
+def closure_hash(prop_vfile):
+    h = hashlib.sha1()
+    for f in coq_deps_of(prop_vfile):
+        h.update(f.encode()); h.update(open(os.path.join(COQ, f), "rb").read())
+    return h.hexdigest()
+
+
 def print_assumptions(prop_vfile):
-    """returns dict theorem -> list of axioms ([] = closed under the global context), or None on failure"""
+    """returns dict theorem -> list of axioms ([] = closed under the global context), or None on failure.
+    The result is cached in _build/ keyed by the content hash of the closure's sources (the .vo files were
+    just rebuilt from exactly those sources)."""
+    key = closure_hash(prop_vfile)
+    cp = os.path.join(BUILD, "assume_cache", os.path.basename(prop_vfile)[:-2] + ".json")
+    if os.path.exists(cp):
+        try:
+            c = json.load(open(cp))
+            if c.get("key") == key:
+                return c["res"], c["raw"]
+        except Exception:
+            pass
+    res, raw = _print_assumptions(prop_vfile)
+    if res is not None:
+        os.makedirs(os.path.dirname(cp), exist_ok=True)
+        json.dump({"key": key, "res": res, "raw": raw[-4000:]}, open(cp, "w"))
+    return res, raw
+
+
+def _print_assumptions(prop_vfile):
     names = theorem_names(prop_vfile)
     mod = "PGV." + prop_vfile[:-2].replace("/", ".")
     body = "From PGV Require Import %s.\n" % prop_vfile[:-2].replace("/", ".")
